@@ -265,9 +265,12 @@ register('C20', 'proof',
          'exists and now - ref.now >= period, the reference rolls over exactly then and on the first push. cpu_statistics: '
          'values in [0, 100] for non-decreasing counters, 0 when total = 0. io_statistics: only interfaces present in both '
          'samples with non-decreasing counters, rates >= 0 (reals). _push_cpu_stats: one point more per core, cut to depth.',
-         not_decided=['alignment / bound of the net_io, disk_io, disk_usage series (HostStatisticsInstance._push_timed_stats: '
-                      'four loops incl. a nested zip loop over aliased lists) - the function is only used through an ASSUMED '
-                      'frame contract (it does not write the times / mem / cpu lists); its body is NOT verified',
+         not_decided=['composition: HostStatisticsInstance.push_statistics still uses the ASSUMED frame contract of '
+                      '_push_timed_stats (contracts/c20.py); the body of _push_timed_stats is verified on its own '
+                      '(contracts/c20_timed.py, group statsmodel_timed: alignment / bound of every kept entity, vanished '
+                      'entities dropped, new entities start with one point, frame) under the precondition that the lists '
+                      'reachable from the history dictionary are distinct objects and that a known entity gets as many '
+                      'values as it has value series - push_statistics is not shown to establish them at its three calls',
                       'ProcStatisticsHolder.push_statistics / ProcStatisticsCompiler / HostStatisticsCompiler (pid 0 => entry '
                       'dropped, pid change => fresh histories, holder deleted when empty): need object construction inside '
                       'summarised dict comprehensions, not supported by the engine yet',
